@@ -1,7 +1,7 @@
 (* T1 tie: ErrorKind::or as printed from src/error.rs, run by the interpreter, is Ref.Load.or for
    every pair of errors (guard fall-through included). *)
 From Coq Require Import List String NArith Bool.
-From AM Require Import Rust.Ast Rust.Eval Gen.Error Ref.Load.
+From AM Require Import Rust.Ast Rust.Eval Gen.Error Gen.Key Ref.Load.
 Import ListNotations.
 Open Scope string_scope.
 
@@ -47,3 +47,21 @@ Lemma error_conversions_keep_the_class :
   enters_as "Io" ErrorKind_from_io = true /\ enters_as "Conversion" ErrorKind_from_boxed = true /\
   leaves_unchanged Boxed_from_kind = true.
 Proof. vm_compute. repeat split. Qed.
+
+(* the error a failed typed load reports carries the id that was asked for and the loader's error,
+   untouched (src/key.rs, Inner::of_asset::load_entry) *)
+Definition wraps_with_own_id (f : fn_def) : bool :=
+  match fn_params f, fn_body f with
+  | [PIdent c None; PIdent i None],
+    [EMatch (ECall (EPath ["T"; "load"]) [EPath [c']; ERef (EPath [i'])])
+       [(PTupleStruct ["Ok"] [PIdent a None], None,
+         ECall (EPath ["Ok"]) [ECall (EPath ["CacheEntry"; "new"]) (EPath [a'] :: EPath [i''] :: _)]);
+        (PTupleStruct ["Err"] [PIdent e None], None,
+         ECall (EPath ["Err"]) [ECall (EPath ["Error"; "new"]) [EPath [i3]; EPath [e']]])]] =>
+    String.eqb c c' && String.eqb i i' && String.eqb i i'' && String.eqb i i3 && String.eqb a a'
+    && String.eqb e e'
+  | _, _ => false
+  end.
+
+Lemma load_error_names_the_asked_id : wraps_with_own_id Inner_of_asset_load_entry = true.
+Proof. vm_compute. reflexivity. Qed.
